@@ -23,7 +23,10 @@ CONSTANTS Deviations   \* subset of AllDeviations the implementation is allowed 
 AllDeviations == {"FreeUnmapsFirstPageOnly",     \* Free(ptr) handles only the page at ptr
                   "MirrorKeyedByVAddrOnly",      \* allocator mirror ignores the pid: Free resolves ptr to the last writer
                   "RemapLeaksOldPages",          \* Remap/Distribute never return the old physical pages
-                  "RemapRecordsGivenDeviceID"}   \* Remap records the requested (unified) device id, not the page's device
+                  "RemapRecordsGivenDeviceID",   \* Remap records the requested (unified) device id, not the page's device
+                  "FreedBufferSweepPanics",      \* Context.removeFreedBuffers deletes from the slice it ranges over
+                  "BuddyCorruptsFreeLists"}      \* buddy allocator only: a block that is taken to be split does not toggle
+                                                 \* its parent's merge bit, so live blocks are merged into free ones
 
 VARIABLES
   devs,     \* Seq of [type, base, n, mem]; device id d is devs[d+1]; d = 0 is the CPU
@@ -35,7 +38,7 @@ VARIABLES
   bufs,     \* Seq of [pid, v, n, live]                    buffers returned by the API, in allocation order
   held,     \* source pages of migrations in preparation (must stay reserved)
   devUsed,  \* deviations exhibited so far
-  crashed   \* the driver panicked in a valid call
+  crashed   \* the history ended with a failure: the driver panicked in a valid call (or handed out a live page)
 
 vars == <<devs, out, limbo, nextV, vown, pt, bufs, held, devUsed, crashed>>
 
@@ -64,8 +67,15 @@ LiveOn(t) == Cardinality({k \in LiveKeys \cap DOMAIN pt : OnDev(pt[k].ppn, t)})
              + Cardinality({p \in held : OnDev(p, t)})
 \* "the sequence stays within device capacity": the call still fits on every device it may draw from
 WithinCap(T, n) == \A t \in T : LiveOn(t) + n <= Dev(t).n
-\* pages of t that are certainly in the free list / possibly in the free list
+\* Allocate on a unified device takes each page from any member that still has one: the members form a pool
+RECURSIVE CapOf(_)
+CapOf(T) == IF T = {} THEN 0 ELSE LET t == CHOOSE x \in T : TRUE IN Dev(t).n + CapOf(T \ {t})
+LiveOnAny(T) == Cardinality({k \in LiveKeys \cap DOMAIN pt : OnAny(pt[k].ppn, T)})
+                + Cardinality({p \in held : OnAny(p, T)})
+FitsPool(T, n) == LiveOnAny(T) + n <= CapOf(T)
+\* pages of t that are certainly in the free list
 SureFree(t) == Dev(t).n - Cardinality({p \in out \cup limbo : OnDev(p, t)})
+SureFreePool(T) == CapOf(T) - Cardinality({p \in out \cup limbo : OnAny(p, T)})
 LimboOn(T) == {p \in limbo : OnAny(p, T)}
 
 \* ------------------------------------------------------------------ actions
@@ -74,7 +84,7 @@ Alloc(pid, d, ps) ==
   LET n == Len(ps)  v == NextV(pid)
       newKeys == {<<pid, v + i - 1>> : i \in 1..n} IN
   /\ ~crashed /\ n >= 1 /\ d \in DevIds
-  /\ WithinCap(Targets(d), n)
+  /\ FitsPool(Targets(d), n)
   /\ Injective(ps)
   /\ \A i \in 1..n : OnAny(ps[i], Targets(d)) /\ ps[i] \notin out         \* never hand out a page twice
   /\ newKeys \cap DOMAIN pt = {}
@@ -86,6 +96,27 @@ Alloc(pid, d, ps) ==
   /\ vown' = [w \in DOMAIN vown \cup {k[2] : k \in newKeys} |-> IF <<pid, w>> \in newKeys THEN pid ELSE vown[w]]
   /\ bufs' = Append(bufs, [pid |-> pid, v |-> v, n |-> n, live |-> TRUE])
   /\ UNCHANGED <<devs, held, devUsed, crashed>>
+
+(* Buddy allocator, as implemented: its free lists can contain a block that overlaps pages still handed out
+   (Buddy.tla, MC_Buddy_impl.cfg), so an allocation obtains a page that is live.  The history ends here: the
+   set abstraction of the free structure no longer describes the implementation. *)
+AllocAliased(pid, d, ps) ==
+  LET n == Len(ps)  v == NextV(pid)
+      newKeys == {<<pid, v + i - 1>> : i \in 1..n} IN
+  /\ ~crashed /\ n >= 1 /\ d \in DevIds
+  /\ "BuddyCorruptsFreeLists" \in Deviations
+  /\ \A i \in 1..n : OnAny(ps[i], Targets(d))
+  /\ (\E i \in 1..n : ps[i] \in out) \/ ~Injective(ps)      \* a live page, or the same page twice in one call
+  /\ newKeys \cap DOMAIN pt = {}
+  /\ pt' = [k \in DOMAIN pt \cup newKeys |->
+              IF k \in newKeys THEN [ppn |-> ps[k[2] - v + 1], dev |-> DevOfPage(ps[k[2] - v + 1]), mig |-> FALSE]
+              ELSE pt[k]]
+  /\ out' = out \cup Range(ps) /\ limbo' = limbo \ Range(ps)
+  /\ nextV' = [p \in DOMAIN nextV \cup {pid} |-> IF p = pid THEN v + n ELSE nextV[p]]
+  /\ vown' = [w \in DOMAIN vown \cup {k[2] : k \in newKeys} |-> IF <<pid, w>> \in newKeys THEN pid ELSE vown[w]]
+  /\ bufs' = Append(bufs, [pid |-> pid, v |-> v, n |-> n, live |-> TRUE])
+  /\ devUsed' = devUsed \cup {"BuddyCorruptsFreeLists"} /\ crashed' = TRUE
+  /\ UNCHANGED <<devs, held>>
 
 (* FreeMemory: Driver.FreeMemory -> memoryAllocatorImpl.Free -> removePage.  b indexes bufs. *)
 FreeOwner(pid, b, dv) == IF "MirrorKeyedByVAddrOnly" \in dv THEN VOwn(bufs[b].v) ELSE pid
@@ -163,17 +194,41 @@ PrepareMigration(pid, v, g, p) ==
   /\ vown' = [w \in DOMAIN vown \cup {v} |-> IF w = v THEN pid ELSE vown[w]]
   /\ UNCHANGED <<devs, nextV, bufs, devUsed, crashed>>
 
-(* A call that needs n pages of one of the devices T ran out of memory.  Legitimate iff the device is really
-   exhausted; pages in limbo that would have been needed are thereby known to be leaked. *)
-OutOfMemory(T, n) ==
+(* A call that needs n pages ran out of memory.  pooled = TRUE: the pages may come from any device of T
+   (Allocate); FALSE: all n from one device of T (Remap, Distribute, migration).  Legitimate iff the memory is
+   really exhausted; pages in limbo that would have been needed are thereby known to be leaked.  The driver
+   "crashed" iff the history had stayed within capacity. *)
+OutOfMemory(T, n, pooled) ==
   /\ ~crashed
-  /\ \E t \in T :
-       /\ SureFree(t) < n
-       /\ LET lk == LimboOn({t}) IN
-          /\ out' = out \cup lk /\ limbo' = limbo \ lk
-          /\ devUsed' = devUsed \cup (IF lk # {} THEN {"RemapLeaksOldPages"} ELSE {})
-  /\ crashed' = WithinCap(T, n)         \* out of memory although the history stayed within capacity
+  /\ IF pooled
+     THEN /\ SureFreePool(T) < n
+          /\ LET lk == LimboOn(T) IN
+             /\ out' = out \cup lk /\ limbo' = limbo \ lk
+             /\ devUsed' = devUsed \cup (IF lk # {} THEN {"RemapLeaksOldPages"} ELSE {})
+          /\ crashed' = FitsPool(T, n)
+     ELSE /\ \E t \in T :
+               /\ SureFree(t) < n
+               /\ LET lk == LimboOn({t}) IN
+                  /\ out' = out \cup lk /\ limbo' = limbo \ lk
+                  /\ devUsed' = devUsed \cup (IF lk # {} THEN {"RemapLeaksOldPages"} ELSE {})
+          /\ crashed' = WithinCap(T, n)
   /\ UNCHANGED <<devs, nextV, vown, pt, bufs, held>>
+
+(* Buddy allocator, as implemented: the same corruption can also lose blocks, so that a call within capacity
+   finds no block although the pages are free. *)
+OutOfMemoryBuddy(T, n, pooled) ==
+  /\ ~crashed /\ "BuddyCorruptsFreeLists" \in Deviations
+  /\ IF pooled THEN FitsPool(T, n) /\ SureFreePool(T) >= n ELSE WithinCap(T, n) /\ \A t \in T : SureFree(t) >= n
+  /\ crashed' = TRUE /\ devUsed' = devUsed \cup {"BuddyCorruptsFreeLists"}
+  /\ UNCHANGED <<devs, out, limbo, nextV, vown, pt, bufs, held>>
+
+(* A device-to-host copy of an L2-dirty buffer sweeps the freed buffers out of the context's buffer list
+   (Context.removeFreedBuffers, SweepList.tla).  Memory management state is untouched; as implemented the sweep
+   panics when the list ends in a freed buffer and contains another one. *)
+SweepCrash ==
+  /\ ~crashed /\ "FreedBufferSweepPanics" \in Deviations
+  /\ crashed' = TRUE /\ devUsed' = devUsed \cup {"FreedBufferSweepPanics"}
+  /\ UNCHANGED <<devs, out, limbo, nextV, vown, pt, bufs, held>>
 
 \* ---------------------------------------------------------------- invariants
 \* live virtual pages map to pairwise-disjoint physical pages (reserved migration sources included)
